@@ -63,3 +63,17 @@ func TestC09Small(t *testing.T) {
 		t.Repeat(m.Actions(12))
 	})
 }
+
+// FuzzC09Ring drives the same state machine from the native coverage-guided
+// fuzzer (thorough tier): the fuzz input is rapid's bit stream.
+func FuzzC09Ring(f *testing.F) {
+	st := vstat.New("C09.fuzz")
+	f.Fuzz(rapid.MakeFuzz(func(t *rapid.T) {
+		init := rapid.SampledFrom(ringm.InitSizes).Draw(t, "newSize")
+		m := &ringm.Machine{RB: ring.New(init), Gen: vio.Gen{Key: uint64(init)*7919 + 17}, Prefix: "ring-"}
+		m.LastCap = m.RB.Cap()
+		m.Logf("New(%d)", init)
+		defer st.Eval()
+		t.Repeat(m.Actions(9000))
+	}))
+}
